@@ -30,13 +30,27 @@ CHECKS = {
     },
     "C03": {
         "category": "other",
-        "text": "Bounded stand-in (deductive core for the de-duplication loop under construction). Bounded: the real "
-                "assign_confidence and brew_rollup on 1-3 generated collections (spectrum multiplicity 1-3, extra "
-                "level columns, de-dup / rollup / decoys / prefixes on and off, CSV and Parquet, six chunk sizes) "
-                "against an oracle that re-derives the retained rows and the C01 q-values from the statement.",
-        "design_ref": "DESIGN.md 4.C03",
-        "note": "tie-free scores; PEP values not checked (C06)",
-        "technique": "bounded stand-in (seeded-random small inputs through the real functions, independent oracle)",
+        "text": "Deductive core + bounded stand-in. Proved for all inputs (unbounded): the de-duplication loop of "
+                "assign_confidence as a block contract over an abstract row stream with a ghost emission log per "
+                "level - for every stream, every level list starting with 'psms', every chunk size and both "
+                "settings of the switch, each level's writer receives in stream order exactly the rows whose level "
+                "key (a function of the row and the level's hash columns) occurs for the first time among the "
+                "candidate rows; candidates of a higher level are the rows retained at the PSM level; no two "
+                "written rows of a level share a key; with de-duplication off every row is written at the PSM "
+                "level; chunked flushing and the final flush lose and duplicate nothing. Also proved: the level "
+                "list is built with 'psms' first and one level per level column, each with hash columns. With the "
+                "stream in non-increasing score order (C14) first-seen = a highest-scoring one. Bounded (not "
+                "proof): the real assign_confidence and brew_rollup end to end on 1-3 generated collections "
+                "against an independent oracle (retained rows, row integrity, order, C01 q-values on the retained "
+                "rows, target/decoy files, prefixes).",
+        "design_ref": "DESIGN.md 4.C03 and as-built section",
+        "note": "assumed: distinct level names, one writer object per level whose content changes only through "
+                "append_data, get_dataframe_from_records keeps records in order, row.get/str(list) are functions; "
+                "the sort+merge producing the stream, q-value/PEP columns, LinearConfidence (pandas) and the "
+                "rollup tool are bounded-only; tie-free scores in the bounded run",
+        "technique": "sidecar block contracts with ghost state (emission log, first-position map) and loop "
+                     "invariants on the real loop; VCs from the current ast; z3/cvc5; bounded end-to-end runs with "
+                     "an independent oracle",
     },
     "C10": {
         "category": "other",
